@@ -23,6 +23,17 @@ macro_rules! kind {
     };
 }
 
+macro_rules! kind_uninit {
+    ($label:expr, $t:ident, $send:expr, $sync:expr, $uninit:expr) => {
+        Kind {
+            name: $label,
+            send: $send,
+            sync: $sync,
+            add: |b, n| if $uninit { b.add_datum_allow_uninit::<usertypes::$t, _>(n).unwrap() } else { b.add_datum::<usertypes::$t, _>(n).unwrap() },
+        }
+    };
+}
+
 fn kinds() -> Vec<Kind> {
     vec![
         kind!(Both, true, true),
@@ -32,6 +43,16 @@ fn kinds() -> Vec<Kind> {
         kind!(Neither, false, false),
         kind!(NeitherWrapped, false, false),
         kind!(RawPtr, false, false),
+        // `Copy` kinds, added as ordinary data and as data that may stay uninitialised
+        kind_uninit!("BothCopy", BothCopy, true, true, false),
+        kind_uninit!("BothCopy?", BothCopy, true, true, true),
+        kind_uninit!("SendOnlyCopy", SendOnlyCopy, true, false, false),
+        kind_uninit!("SendOnlyCopy?", SendOnlyCopy, true, false, true),
+        kind_uninit!("SyncOnlyCopy", SyncOnlyCopy, false, true, false),
+        kind_uninit!("SyncOnlyCopy?", SyncOnlyCopy, false, true, true),
+        kind_uninit!("NeitherCopy", NeitherCopy, false, false, false),
+        kind_uninit!("NeitherCopy?", NeitherCopy, false, false, true),
+        kind_uninit!("NeitherRefCopy?", NeitherRefCopy, false, false, true),
     ]
 }
 
@@ -238,7 +259,7 @@ pub fn main(args: &Args, ext: &Externs) -> i32 {
     report
         .cov("evaluations", n)
         .cov("distinct_nontrivial", nontrivial)
-        .cov("rule", "every field kind of {Send+Sync, Send-only (Cell, wrapped Cell), Sync-only, neither (Rc, wrapped Rc), raw pointer} x {only in the first variant, only in a later variant, in both, alone, two data of the type with one removed, both removed and one added back, next to another restricted type and removed} -> for every generated RecordK and each of Send / Sync the compiler decides (inherent-const-over-blanket-trait probe, rustc --emit=metadata) whether the record implements the trait; it must equal the conjunction over that variant's fields. evaluations = (record, trait) questions; non-trivial = questions whose expected answer is 'no'")
+        .cov("rule", "every field kind of {Send+Sync, Send-only (Cell, wrapped Cell), Sync-only, neither (Rc, wrapped Rc), raw pointer; and Copy types of each of the four classes, added as ordinary data and (name ending in '?') as data that may stay uninitialised} x {only in the first variant, only in a later variant, in both, alone, two data of the type with one removed, both removed and one added back, next to another restricted type and removed} -> for every generated RecordK and each of Send / Sync the compiler decides (inherent-const-over-blanket-trait probe, rustc --emit=metadata) whether the record implements the trait; it must equal the conjunction over that variant's fields. evaluations = (record, trait) questions; non-trivial = questions whose expected answer is 'no'")
         .cov("samples", samples)
         .cov("exhaustive", true)
         .cov("field_kinds", ks.iter().map(|k| json!([k.name, k.send, k.sync])).collect::<Vec<_>>());
